@@ -314,7 +314,9 @@ def run_history(J, obj_type, modes, seed, pseed, batch_size, iters=3, reset_agai
 
 
 RESET_OPS = ["cont1", "cont2", "reset"]
-SEED_SPELLINGS = ["int", "np_generator", "torch_generator"]
+SEED_SPELLINGS = ["int", "np_generator", "torch_generator", "np_generator_mt19937", "np_generator_philox"]
+# seeds of large magnitude (>= 2**32, >= 2**64, > 2**100): what is remembered for a reset must be the whole seed
+BIG_SEEDS = [2**32 + 7, 2**64, 2**100 + 3]
 
 
 def spell_seed(spelling, pseed):
@@ -327,7 +329,11 @@ def spell_seed(spelling, pseed):
     if spelling == "torch_generator":
         import torch
 
-        return torch.Generator().manual_seed(int(pseed))
+        return torch.Generator().manual_seed(int(pseed) % 2**63)
+    if spelling == "np_generator_mt19937":
+        return np.random.Generator(np.random.MT19937(int(pseed)))
+    if spelling == "np_generator_philox":
+        return np.random.Generator(np.random.Philox(int(pseed)))
     raise Broken(f"unknown seed spelling {spelling}")
 
 
@@ -391,6 +397,65 @@ def w_reset_histories(item, seed=0, depth=3):
     return t
 
 
+def _interleavings(a, b):
+    if not a or not b:
+        yield list(a) + list(b)
+        return
+    for rest in _interleavings(a[1:], b):
+        yield [a[0]] + rest
+    for rest in _interleavings(a, b[1:]):
+        yield [b[0]] + rest
+
+
+def w_shared_generator(item, seed=0):
+    """ONE numpy Generator object handed to two reconstruction objects (and kept by the caller): after each object was
+    started with reset=True, its loss history must be the history of the same calls on an object that is alone with
+    its generator — for every interleaving of the two objects' continued runs, with and without the caller drawing from
+    the generator in between ("two runs started from the same seed ... produce identical loss histories")."""
+    J, obj_type, modes, bs, pseed = item[:5]
+    t = Tally()
+    iters = 2
+
+    def fresh():
+        return build_problem(tiny_cfg(J, obj_type, modes, 1), seed, [J, modes, 1])
+
+    def first(P):
+        P.ptycho.reconstruct(num_iters=iters, reset=True, batch_size=bs, optimizer_params=copy.deepcopy(ADAM))
+
+    ops = {"c1": 1, "c2": 2}
+    with warnings.catch_warnings():
+        warnings.simplefilter("ignore")
+        S = fresh()
+        S.ptycho.rng = np.random.default_rng(int(pseed))
+        first(S)
+        for o in ("c1", "c2"):
+            S.ptycho.reconstruct(num_iters=ops[o], batch_size=bs)
+        solo = np.array(S.ptycho.iter_losses, dtype=np.float64)
+        for order in _interleavings([("A", "c1"), ("A", "c2")], [("B", "c1"), ("B", "c2")]):
+            for draws in (False, True):
+                for first_order in ("AB", "BA"):
+                    case = {"part": "shared_generator", "J": J, "obj_type": obj_type, "modes": modes, "batch_size": bs, "ptycho_seed": pseed, "order": [list(x) for x in order], "caller_draws": draws, "first": first_order}
+                    g = np.random.default_rng(int(pseed))
+                    objs = {"A": fresh(), "B": fresh()}
+                    for k in first_order:
+                        objs[k].ptycho.rng = g
+                    for k in first_order:
+                        first(objs[k])
+                        if draws:
+                            g.random(3)
+                    for who, o in order:
+                        objs[who].ptycho.reconstruct(num_iters=ops[o], batch_size=bs)
+                        if draws:
+                            g.permutation(5)
+                    t.case(key=case, nontrivial=True, outcome=[round(float(x), 7) for x in objs["A"].ptycho.iter_losses])
+                    for who in ("A", "B"):
+                        got = np.array(objs[who].ptycho.iter_losses, dtype=np.float64)
+                        if got.tobytes() != solo.tobytes():
+                            t.fail({"relation": "history_independent_of_other_holders_of_the_generator", "part": "shared_generator", "caller_draws": draws}, case, f"object {who} sharing its Generator object with another reconstruction (order {order}, caller draws {draws}): losses {got.tolist()}, alone with the same seed and calls {solo.tolist()}")
+                            break
+    return t
+
+
 def w_determinism(item, seed=0):
     J, obj_type, modes, bs, pseed = item
     t = Tally()
@@ -451,6 +516,9 @@ def run(ctx):
     # the seed in each documented spelling, and a first run that does NOT pass reset=True ("the same run after a reset")
     base = [(4, "complex", 1, 2, 5, None), (12, "complex", 1, 4, 11, (0.25, "random"))] if q else [(4, "complex", 1, 2, 5, None), (4, "complex", 1, 1, 11, None), (12, "potential", 2, 5, 5, None), (12, "complex", 1, 4, 11, (0.25, "random")), (12, "complex", 1, 2, 5, (0.25, "grid"))]
     rh += [b + (sp, fr) for b in base for sp in SEED_SPELLINGS for fr in (True, False) if not (sp == "int" and fr)]
+    big = [(4, "complex", 1, 2, bsd, None) for bsd in BIG_SEEDS] + ([] if q else [(12, "complex", 1, 4, bsd, (0.25, "random")) for bsd in BIG_SEEDS])
+    rh += [b + (sp, fr) for b in big for sp in ("int", "np_generator") for fr in (True, False)]
+    ctx.pmap(w_shared_generator, [(4, "complex", 1, 2, 5), (12, "complex", 1, 5, 11)] if q else [(4, "complex", 1, 2, 5), (4, "potential", 2, 1, 11), (12, "complex", 1, 5, 11), (12, "potential", 2, 3, 5)], chunk=1, label="one Generator object, several holders", seed=ctx.seed)
     ctx.pmap(w_reset_histories, rh, chunk=1, label="reset after every history", seed=ctx.seed, depth=2 if q else 3)
     if m.extra["different_seed_cases"] and m.extra["different_seed_differs"] == 0:
         raise Broken("different seeds never changed the loss history: the shuffle does not matter, determinism check is vacuous")
@@ -472,6 +540,8 @@ def replay(ctx, case):
         t = w_invariance((case["J"], case["obj_type"], case["modes"], case["slices"], case["loss_type"]), seed=ctx.seed, quick=True)
     elif part == "reset_history":
         t = w_reset_histories((case["J"], case["obj_type"], case["modes"], case["batch_size"], case["ptycho_seed"], case.get("val"), case.get("seed_spelling", "int"), case.get("first_reset", True)), seed=ctx.seed, depth=len(case["history"]))
+    elif part == "shared_generator":
+        t = w_shared_generator((case["J"], case["obj_type"], case["modes"], case["batch_size"], case["ptycho_seed"]), seed=ctx.seed)
     elif part == "determinism":
         t = w_determinism((case["J"], case["obj_type"], case["modes"], case["batch_size"], case["ptycho_seed"]), seed=ctx.seed)
     for f in t.fails:
